@@ -53,8 +53,8 @@ try:
     if os.path.exists(out + '/meta.json'):
         old = json.load(open(out + '/meta.json'))
         oc = old.get('checks', {}); oc.update(meta['checks']); meta['checks'] = oc
-        for k in ('needs', 'breaks_property'):
-            if k in old: meta[k] = old[k]
+        for k in old:
+            if k not in meta: meta[k] = old[k]
     json.dump(meta, open(out + '/meta.json', 'w'), indent=1)
     print(json.dumps(meta, indent=1))
 finally:
